@@ -125,7 +125,8 @@ def structured_program(sid, rng, mbc=None, steps=None):
     if mbc == 0x13: cart = (rng.choice([0x11, 0x13]), 3, 3)
     if mbc == 0x33: cart = (0x13, 5, 3)            # 64 banks: bank numbers that differ by 32 hold different code
     if mbc == 0x52: cart = (0x13, 0x52, 3)         # 72 banks: a size that is not a power of two
-    banks = {0: 2, 2: 8, 3: 16, 5: 64, 0x52: 72}[cart[1]]
+    if mbc == 0x106: cart = (rng.choice([1, 3]), 6, 3)   # MBC1 with 128 banks: upper bank bits and the mode register matter
+    banks = {0: 2, 2: 8, 3: 16, 5: 64, 6: 128, 0x52: 72}[cart[1]]
     chunks = []
     counter = [0xC100, 0xC101, 0xC102, 0xFF90, 0xFF91]
     # interrupt handlers
@@ -195,7 +196,20 @@ def structured_program(sid, rng, mbc=None, steps=None):
             a.emit(0xCD); a.word(dst)
         elif k == 8 and mbc:                                          # bank switch and call into the bank
             bank = rng.randrange(1, banks) if banks <= 16 else (rng.choice([1, 33, 2, 34, 1, 33, 17, 49]) if banks == 64 else rng.choice([1, 9, 2, 40, 64, 71, 8, 63]))
-            a.emit(0x3E, bank, 0xEA); a.word(rng.choice([0x2000, 0x2100, 0x3FFF]))
+            if banks <= 16 and rng.randrange(4) == 0:
+                bank = banks * rng.choice([1, 1, 3]) % (32 if cart[0] < 4 else 128) or banks   # a multiple of the bank count: the mirror of bank 0
+            if mbc == 0x106:
+                # MBC1, 128 banks: the low five bits, the upper two bits and the mode register, written in any order and
+                # not always all three (the bank that results depends on what the earlier snippets left behind)
+                ws = [(0x2000, rng.choice([0, 1, 2, 0x1F, 0x20, 0x21])), (0x4000, rng.randrange(4)), (0x6000, rng.randrange(2))]
+                rng.shuffle(ws)
+                for addr, v in ws[:rng.randint(1, 3)]:
+                    a.emit(0x3E, v, 0xEA); a.word(addr + rng.choice([0, 0x1FFF, 0x100]))
+            else:
+                a.emit(0x3E, bank, 0xEA); a.word(rng.choice([0x2000, 0x2100, 0x3FFF]))
+            if rng.randrange(3) == 0:
+                # code in the fixed bank reads the switchable bank as data: LD A,(slot + 1) -> the bank's own number
+                a.emit(0xFA); a.word(0x4001 + 16 * rng.randrange(4)); a.emit(0xEA); a.word(0xC120 + rng.randrange(8))
             a.emit(0xCD); a.word(0x4000 + 16 * rng.randrange(4))
         elif k == 9:                                                  # serial output
             a.emit(0x3E, rng.randrange(256), 0xE0, 0x01, 0x3E, rng.choice([0x81, 0x80, 0x01, 0xFF, 0x00]), 0xE0, 0x02)
@@ -220,7 +234,8 @@ def structured_program(sid, rng, mbc=None, steps=None):
     chunks.append((0x100, [0x00, 0xC3, 0x50, 0x01]))
     chunks.append((a.org, a.resolve()))
     if mbc:
-        for bank in range(1, banks):
+        # (bank 0's own first 64 bytes hold slots too: a bank number that is a multiple of the bank count maps them at 0x4000)
+        for bank in range(0, banks):
             for slot in range(4):
                 body = [0x3E, bank, 0x06, slot]
                 for _ in range(rng.randint(0, 3)): body += alu_op(rng)
@@ -461,11 +476,17 @@ def cache_history_scenario(sid, steps, cart, bankreg=0x2000, bankmap=(1, 2, 3)):
         else:
             a.emit(0x06, bankmap[sym - 6], 0xCD); a.word(0xC000)
     a.label("END"); a.jr(0x18, "END")
-    chunks = [(0x100, [0x00, 0xC3, 0x50, 0x01]), (a.org, a.resolve()), (LO_BLOCK, [0x3E, 0x00, 0x0E, 0xE0, 0xC9])]
+    # the low block lives in the fixed bank but reads a byte of the switchable bank (every bank holds its own number at
+    # 0x7FF0): translated once, it must still see the bank mapped when it runs.   LD A,(0x7FF0) ; LD E,A ; LD A,0 ; LD C,0xE0 ; RET
+    chunks = [(0x100, [0x00, 0xC3, 0x50, 0x01]), (a.org, a.resolve()), (LO_BLOCK, [0xFA, 0xF0, 0x7F, 0x5F, 0x3E, 0x00, 0x0E, 0xE0, 0xC9])]
+    nbanks = {0: 2, 1: 4, 2: 8, 3: 16, 4: 32, 5: 64, 6: 128, 0x52: 72, 0x53: 80, 0x54: 96}[cart[1]]
     for b in sorted(set(list(bankmap) + [1])):
-        chunks.append((b * 0x4000 + (HI_BLOCKS[0] - 0x4000), [0x3E, b, 0x0E, 0, 0xC9]))
+        # a bank number that is a multiple of the bank count selects the image's first 16 KiB at 0x4000 (a mirror of bank 0)
+        phys = (b % nbanks) * 0x4000
+        chunks.append((phys + (HI_BLOCKS[0] - 0x4000), [0x3E, b, 0x0E, 0, 0xC9]))
         # high block 1: LD A,b ; LD C,1 ; DEC D ; JR NZ,start ; RET  -- a block that ends by jumping to its own start
-        chunks.append((b * 0x4000 + (HI_BLOCKS[1] - 0x4000), [0x3E, b, 0x0E, 1, 0x15, 0x20, 0xF9, 0xC9]))
+        chunks.append((phys + (HI_BLOCKS[1] - 0x4000), [0x3E, b, 0x0E, 1, 0x15, 0x20, 0xF9, 0xC9]))
+        chunks.append((phys + 0x3FF0, [b]))
     nsteps = 3 + sum(1 if x < 3 else (2 if x == 3 or x == 4 else (4 if x == 5 else 3)) for x in steps) + 2
     return scenario(sid, chunks, cpu(pc=0x100, sp=0xFFFE), nsteps, mode="block", cart=cart)
 
